@@ -371,6 +371,17 @@ example :
     (run (fun _ _ _ => 0) (Bloom.new 5 0 3 10) ops).bits = [243, 2] := by
   refine ⟨by decide, rfl, rfl, rfl, rfl⟩
 
+/-- the hypothesis on the hash strategy is satisfiable (e.g. by a strategy shaped like the default
+    one: exactly `depth` values) and `C01_bloom_keys` then applies to a concrete history -/
+example :
+    let H : Key → Nat → List Nat := fun key d => (List.range d).map (· * 7 + key.units.length)
+    (∀ key d, d ≤ (H key d).length) ∧
+    (run (fun _ _ _ => 0) (Bloom.new 5 0 3 10)
+      ([KOp.add ⟨true, [104, 105]⟩, .add ⟨false, [1]⟩].map (KOp.toOp H 3))).checkAlt (H ⟨true, [104, 105]⟩ 3)
+      = .ok true := by
+  refine ⟨by intro key d; simp, ?_⟩
+  exact C01_bloom_keys _ (by intro key d; simp) _ _ _ (C01_new_wf 5 0 3 10 (by decide)) _ (by decide)
+
 /-- test: the expanding filter grows (est = 2) and still reports the first key -/
 example :
     let ops := [EOp.add [3, 14, 25] false, .add [7, 19, 1000] false, .push, .add [1, 2, 3] true,
